@@ -58,7 +58,7 @@ Qed.
 Lemma it_snext_mono : forall i ctx its p r x,
   it_snext toks spn run i ctx its p r = Some x -> it_snext toks spn run' i ctx its p r = Some x.
 Proof.
-  induction i as [a lo hi|a sep lo hi lead trail|j IHj|f j IHj|f j IHj|a|a lo hi ck];
+  induction i as [a lo hi|a sep lo hi lead trail|j IHj|f j IHj|f j IHj|a|a lo hi ck|a];
     intros ctx its p r x H; cbn [it_snext] in *.
   - destruct its; try discriminate.
     destruct (rep_snext run a lo hi ctx n p r) as [[[x0 c'] r0]|] eqn:E; [|discriminate].
@@ -74,10 +74,11 @@ Proof.
   - destruct (it_snext toks spn run j ctx its p r) as [[[x0 c'] r0]|] eqn:E; [|discriminate].
     now rewrite (IHj _ _ _ _ _ E).
   - destruct its; try discriminate. destruct b; [exact H|]. use_run H; auto.
-  - destruct its as [c|k js|b|c clo chi|k]; try discriminate.
+  - destruct its as [c|k js|b|c clo chi|k|o]; try discriminate.
     + destruct (rep_snext run a clo chi ctx c p r) as [[[x0 c'] r0]|] eqn:E; [|discriminate].
       now rewrite (rep_snext_mono _ _ _ _ _ _ _ _ E).
     + use_run H; auto.
+  - destruct its as [| | | | |[l|]]; try discriminate; [exact H|]. use_run H; auto.
 Qed.
 
 Lemma sdrive_mono : forall fuel fuel' i ctx its lim acc acce p r x, fuel <= fuel' ->
@@ -263,7 +264,7 @@ Proof.
                   | destruct gs; [exact H | eapply choice_sem_mono; eauto]]).
   all: try (solve [repeat (first [step IH H | stepd IH H]; cbn beta iota); try exact H; auto]).
   - (* CollectExactly *)
-    destruct n0; [destruct (its_fail (mk_iter i ctx)); [apply IH; exact H|]|];
+    destruct n0; [destruct (it_eager i ctx); [apply IH; exact H|]|];
       stepd IH H; exact H.
   - (* RecoverVia *) step IH H; [exact H|]. destruct r0 as [a0|]; [|discriminate]. step IH H; exact H.
   - (* RecoverSkipUntil *) step IH H; [exact H|]. destruct r0 as [a0|]; [|discriminate]. stepd IH H; exact H.
